@@ -13,6 +13,7 @@ import (
 	"sort"
 	"strconv"
 	"strings"
+	"sync"
 	"time"
 
 	topov1alpha1 "github.com/k8stopologyawareschedwg/noderesourcetopology-api/pkg/apis/topology/v1alpha1"
@@ -206,8 +207,40 @@ func spNewSim(r *sim.Run) *spSim {
 	return s
 }
 
+// spTmpBase: the private cgroup roots live on tmpfs when the machine has one (cgroupfs itself is memory backed; the
+// runs are dominated by small-file syscalls), else under $TMPDIR. Roots left behind by killed workers are swept once.
+var spTmpBaseOnce sync.Once
+var spTmpBase string
+
+func spTempBase() string {
+	spTmpBaseOnce.Do(func() {
+		if st, err := os.Stat("/dev/shm"); err == nil && st.IsDir() {
+			if d, err := os.MkdirTemp("/dev/shm", "verif-suppress-probe-"); err == nil {
+				_ = os.Remove(d)
+				spTmpBase = "/dev/shm"
+			}
+		}
+		if spTmpBase == "" {
+			return
+		}
+		ents, _ := os.ReadDir(spTmpBase)
+		for _, e := range ents {
+			parts := strings.Split(e.Name(), "-")
+			if len(parts) < 4 || parts[0] != "verif" || parts[1] != "suppress" {
+				continue
+			}
+			if pid, err := strconv.Atoi(parts[2]); err == nil && pid != os.Getpid() {
+				if _, err := os.Stat(fmt.Sprintf("/proc/%d", pid)); os.IsNotExist(err) {
+					_ = os.RemoveAll(filepath.Join(spTmpBase, e.Name()))
+				}
+			}
+		}
+	})
+	return spTmpBase
+}
+
 func (s *spSim) setup() {
-	root, err := os.MkdirTemp("", fmt.Sprintf("verif-suppress-%d-", os.Getpid()))
+	root, err := os.MkdirTemp(spTempBase(), fmt.Sprintf("verif-suppress-%d-", os.Getpid()))
 	if err != nil {
 		s.r.HarnessFail("mkdtemp: %v", err)
 	}
@@ -397,14 +430,12 @@ func (s *spSim) bePodDirs() []string {
 func (s *spSim) hook(real resourceexecutor.UpdateFunc) resourceexecutor.UpdateFunc {
 	return func(u resourceexecutor.ResourceUpdater) error {
 		r := s.r
-		cu, _ := u.(*resourceexecutor.CgroupResourceUpdater)
 		path := u.Path()
 		dir := filepath.Clean(strings.TrimSuffix(strings.TrimPrefix(filepath.Dir(path), filepath.Join(s.root, "cpuset")+"/"), "/"))
 		file := filepath.Base(path)
 		if file != system.CPUSetCPUSName {
 			dir = filepath.Clean(s.beRel)
 		}
-		_ = cu
 		switch r.Fault("cgroup-write", "write-error", "dir-vanish", "dir-appear") {
 		case "write-error":
 			s.roundFaults++
